@@ -326,6 +326,11 @@ def run_feedback(spec, acc, ctx, mode):
             db, info = gen.make_db(rng, scheme, cfg, rng.choice(["tiny", "zipf", "pow2-edge"]), rng.choice([5, 9, 14]))
         except ValueError:
             continue
+        if scheme not in ("CGKO06.SSE1", "CGKO06.SSE2") and rng.random() < 0.5:
+            # one keyword of 65..300 bytes (longer than a hash block): whatever the PRF layer derives from long inputs
+            # before keying shows up among the byte strings collected below
+            victim = rng.choice(sorted(db))
+            db[bytes([rng.randrange(1, 256)]) + rng.randbytes(rng.choice([64, 65, 127, 128, 129, 300]))] = db.pop(victim)
         seen = []
         orig = prf_mod.HmacPRF.__call__
 
@@ -333,11 +338,29 @@ def run_feedback(spec, acc, ctx, mode):
             if len(seen) < 5000:
                 seen.append(bytes(message))
             return orig(self, key, message)
-        prf_mod.HmacPRF.__call__ = recording
+
+        class _HmacProxy:
+            """stands in for the name `hmac` inside toolkit.prf.hmac_prf: also the messages handed to HMAC itself are
+            collected (what the PRF layer made of its input before keying)"""
+            def __getattr__(self, name):
+                return getattr(_real_hmac, name)
+
+            def new(self, key, msg=None, digestmod=""):
+                if msg is not None and len(seen) < 5000:
+                    seen.append(bytes(msg))
+                return _real_hmac.new(key, msg, digestmod)
+        import hmac as _real_hmac
+        had_hmac = getattr(prf_mod, "hmac", None)
+
+        def hooks(on):
+            prf_mod.HmacPRF.__call__ = recording if on else orig
+            if had_hmac is not None:
+                prf_mod.hmac = _HmacProxy() if on else had_hmac
+        hooks(True)
         try:
             st1 = sse.Setup(scheme, copy.deepcopy(cfg), copy.deepcopy(db))
         finally:
-            prf_mod.HmacPRF.__call__ = orig
+            hooks(False)
         if st1.error is not None:
             continue
         first_seen = list(dict.fromkeys(seen))
@@ -346,11 +369,11 @@ def run_feedback(spec, acc, ctx, mode):
             # in a second setup of the same database under another key (a random dummy keyword drawn for one setup is
             # searchable in that index by construction, but nobody can know it)
             del seen[:]
-            prf_mod.HmacPRF.__call__ = recording
+            hooks(True)
             try:
                 st1 = sse.Setup(scheme, copy.deepcopy(cfg), copy.deepcopy(db))
             finally:
-                prf_mod.HmacPRF.__call__ = orig
+                hooks(False)
             if st1.error is not None:
                 continue
             again = set(seen)
